@@ -209,8 +209,18 @@ def gen_pair_case(rng, root, combo):
         files.append({"name_kid": pk.keyid[:8], "signer": pk.keyid[:8], "signer_kind": pk.kind, "tamper": None, "fmt": "metablock",
                       "wrong_name": False, "counts_for": pk.keyid})
         mains.add(pk.keyid)
+    alias_store = rng.random() < 0.35
+    if alias_store:
+        # the key store lists the master under another spelling of its id (upper case, as gpg prints fingerprints); the
+        # step authorises it in that spelling and its link lies under that spelling: still ONE functionary
+        up = m.keyid.upper()
+        ch.layout_keys = {(up if kk == m.keyid else kk): vv for kk, vv in ch.layout_keys.items()}
+        pubkeys = [up if a_ == m.keyid else a_ for a_ in pubkeys]
+        for ls in links:
+            if ls["kid"] == m.keyid:
+                ls["kid"] = up
     step["pubkeys"], step["threshold"], step["links"] = pubkeys, 2, links
-    desc = {"gpg": True, "gpg_mode": "pair_grid", "grid": {"authorised": [a1[:8], a2[:8]], "extra_plain_functionary": extra},
+    desc = {"gpg": True, "gpg_mode": "pair_grid", "master_listed_in_upper_case": alias_store, "grid": {"authorised": [a1[:8], a2[:8]], "extra_plain_functionary": extra},
             "files": files, "threshold": 2, "good_functionaries": len(mains), "expected_accept": len(mains) >= 2,
             "focus": step["name"], "steps_before_focus": len(ch.steps) - 1}
     return ch, desc
